@@ -677,8 +677,9 @@ class C19(Prop):
     assumptions = [
         "affine expressions with symbols are outside the model (canonicalize_affine.py never creates or inspects them)",
         "Python recursion depth is not modelled: the model uses fuel 64 per expression; running out of fuel where Python answers is a disagreement",
-        "stride patterns: upper bounds are naturals; negative bounds are outside the model (canonicalize is not "
-        "idempotent on them, e.g. bounds [-1,-1] strides [s,-s])",
+        "stride patterns: the theorems are about natural upper bounds; negative bounds are modelled (stepZ) and compared "
+        "with the real code but outside the property's quantifier (canonicalize turns bounds [-1,-1] strides [s,-s] into "
+        "bound [1], and a second pass removes it)",
         "pack_bitlist: values/offsets are interpreted as dtype-bit unsigned words; shift amounts >= dtype (poison for "
         "arith.shli) are not generated",
         "AffineTransform: numpy int64 overflow is not modelled (the model is over unbounded Int)",
@@ -728,6 +729,12 @@ class C19(Prop):
             ub, ts, ss = gen_sp(rng)
             if rng.random() < 0.02 and ub:
                 ts = ts[:-1]  # verify must refuse
+            if rng.random() < 0.06 and ub:   # negative bounds: outside the property, inside the model
+                i_ = rng.randrange(len(ub))
+                ub = ub[:i_] + [rng.choice([-1, -1, -2, -3])] + ub[i_ + 1:]
+                if rng.random() < 0.5 and i_ + 1 < min(len(ub), len(ts)):
+                    ub[i_ + 1] = rng.choice([-1, -2])
+                    ts[i_ + 1] = ub[i_] * ts[i_]
             yield {"kind": "sp_canon", "ub": ub, "ts": ts, "ss": ss}
         for _ in range(300 if quick else 8000):
             yield gen_pack(rng)
@@ -820,7 +827,8 @@ class C19(Prop):
             assert m.num_dims == case["ndims"] and m.num_symbols == 0
             return {"results": [of_x(r) for r in m.results]}
         if k == "at_eq":
-            return {"ok": bool(mk_T(case["s"]) == mk_T(case["o"]))}
+            other = bool(mk_T(case["s"]) == 5) or bool(mk_T(case["s"]) == case["s"]["A"])   # not an AffineTransform
+            return {"ok": bool(mk_T(case["s"]) == mk_T(case["o"])), "eq_other_type": other}
         if k == "at_evalnd":
             import numpy as np
             t = mk_T(case["t"])
@@ -941,7 +949,11 @@ class C19(Prop):
         if k == "at_postinit":
             return [{"fn": "c19.at_postinit", "args": {"a_shape": case["a_shape"], "b_shape": case["b_shape"]}}]
         if k == "sp_canon":
-            return [{"fn": "c19.sp_canon", "args": {"ub": case["ub"], "ts": case["ts"], "ss": case["ss"]}}]
+            args = {"ub": case["ub"], "ts": case["ts"], "ss": case["ss"]}
+            reqs = [{"fn": "c19.sp_canon_z", "args": args}]          # the loop on integer bounds
+            if all(b >= 0 for b in case["ub"]):
+                reqs.append({"fn": "c19.sp_canon", "args": args})    # the natural-bound model the theorems are about
+            return reqs
         if k == "pack":
             mask = (1 << case["w"]) - 1
             def src(v, m):
@@ -1007,9 +1019,15 @@ class C19(Prop):
             return {"canon": a}
         if k == "affine_canon_map":
             return {"out_of_fuel": True} if a is None else {"results": a}
-        if k in ("at_eq", "at_evalnd", "at_postinit"):
+        if k == "at_eq":
+            return dict(a, eq_other_type=False) if "ok" in a else a
+        if k in ("at_evalnd", "at_postinit"):
             return a
         if k == "sp_canon":
+            if len(answers) > 1:
+                n_ = answers[1]
+                if "err" in n_ or n_["ok"] != a:
+                    return {"model_error": f"natural-bound and integer-bound models differ (contradicts spCanonZ_agrees): {n_}"}
             if not a["verify"]:
                 return {"raised": "VerifyException"}
             return {"canon": a["canon"], "addrs": a["addrs"]}
@@ -1107,6 +1125,8 @@ class C19(Prop):
                 if canonicalize_expr(r) != r:
                     bad(f"canonicalize_map not idempotent on {r}")
         elif k == "at_eq":
+            if impl_out.get("eq_other_type"):
+                bad("AffineTransform compares equal to an object that is not an AffineTransform")
             s_, o = case["s"], case["o"]
             same_shape = s_["nd"] == o["nd"] and len(s_["b"]) == len(o["b"])
             want = s_ == o
@@ -1148,6 +1168,8 @@ class C19(Prop):
                 bad("spatial strides changed")
             if len(c["ub"]) != len(c["ts"]):
                 bad("canonical pattern has unequal list lengths")
+            elif any(b < 0 for b in case["ub"]):
+                return out   # a negative trip count is outside the property's quantifier (modelled and compared, not claimed)
             elif seq_of(c["ub"], c["ts"]) != seq_of(case["ub"], case["ts"]):
                 bad(f"canonical pattern ub={c['ub']} ts={c['ts']} has a different address sequence")
             c2 = sp_json(StridePattern(c["ub"], c["ts"], c["ss"]).canonicalize())
